@@ -125,6 +125,12 @@ pub enum Mutation {
     Extend { by: u32, fill: u8 },
     /// k seeded byte edits
     Multi { k: u8, seed: u32 },
+    /// overwrite every byte of field (`field` mod #fields) with `byte` (e.g. an all-zero point)
+    SetField { field: u8, byte: u8 },
+    /// set one byte (`pos` mod field length) of a field to `byte`
+    ByteSet { field: u8, pos: u32, byte: u8 },
+    /// cut the last `n` bytes
+    TruncLast { n: u8 },
 }
 
 #[derive(Clone, Copy, Debug, Serialize, Deserialize, PartialEq)]
